@@ -17,14 +17,38 @@ def upd(kind, ver):
         return {"op": "update", "rules": rules_v(ver), "_ver": ver}
     if kind == "incr":
         return {"op": "incr", "rules": rules_v(ver), "_ver": ver}
-    return {"op": "remove", "names": ["pc"], "_ver": None}
+    if kind == "incr1":         # replaces one rule only: the version after it mixes body tags by design
+        return {"op": "incr", "rules": rules_v(ver, names=("pb",), sals={"pb": 6}), "_ver": None}
+    return {"op": "remove", "names": {"remove": ["pc"], "remove-first": ["pa"], "remove-mid": ["pb"], "remove-two": ["pa", "pc"]}[kind], "_ver": None}
+
+
+MODEL_ENTRY = {1: "Execute", 2: "ExecuteConcurrent", 3: "ExecuteMixModel", 4: "ExecuteInverseMixModel"}
+MODEL_SEL_ENTRY = {1: "ExecuteSelectedRules", 2: "ExecuteSelectedRulesConcurrent", 3: "ExecuteSelectedRulesMixModel", 4: "ExecuteSelectedRulesInverseMixModel"}
+
+
+def coq_shape(st, model):
+    m = st["method"]
+    if m in ("ExecuteRulesWithSpecifiedEM", "ExecuteRulesWithMultiInputWithSpecifiedEM"):
+        m = MODEL_ENTRY[model]
+    elif m == "ExecuteSelectedWithSpecifiedEM":
+        m = MODEL_SEL_ENTRY[model]
+    return "(mkShape E%s %s %s %s %s)" % (m, coq_z(st.get("n", 1)), coq_z(st.get("m", 1)), coq_list([coq_str(x) for x in st.get("names", [])]),
+                                          coq_list([coq_list([coq_str(x) for x in ly]) for ly in st.get("layers", [])]))
+
+
+def coq_mop_of(u):
+    if u["op"] == "update":
+        return "(MUpdate 0 %s)" % coq_prules(u["rules"])
+    if u["op"] == "incr":
+        return "(MIncr 0 %s)" % coq_prules(u["rules"])
+    return "(MRemove 0 %s)" % coq_list([coq_str(n) for n in u["names"]])
 
 
 def make_scenarios(rng, tier):
     scs = []
     sid = 1
     for (method, kw) in ENTRY_SHAPES:
-        for kind in ("full", "incr", "remove"):
+        for kind in ("full", "incr", "remove", "remove-first", "remove-mid", "remove-two", "incr1"):
             for where in ("inside", "script"):
                 for (mn, mx) in ([(1, 2)] if tier == "quick" else [(1, 2), (2, 3)]):
                     sc = {"id": sid, "min": mn, "max": mx, "model": 1, "rules": rules_v(1), "steps": []}
@@ -34,6 +58,7 @@ def make_scenarios(rng, tier):
                     if where == "inside":
                         sc["steps"].append(req_step(r0 + 1, method, NAMES, hold_at="", inside=dict({k: v for k, v in u.items() if not k.startswith("_")}, hold_at="pa"), **kw))
                         sc["_inside_ver"] = u["_ver"]
+                        sc["_inside_u"] = u
                     else:
                         sc["steps"].append(req_step(r0 + 1, method, NAMES, hold_at="pa", **kw))
                         sc["steps"].append(dict(u))
@@ -46,7 +71,7 @@ def make_scenarios(rng, tier):
                     for q in later:
                         sc["steps"].append({"op": "release", "id": q})
                     # a second update and another round
-                    u2 = upd("incr" if kind != "incr" else "full", 3)
+                    u2 = upd("incr" if kind not in ("incr", "incr1") else "full", 3)
                     sc["steps"].append(dict(u2))
                     for k in range(mx):
                         sc["steps"].append(req_step(r0 + 20 + k, rng.choice(["Execute", "ExecuteConcurrent", "ExecuteMixModel"]), [], hold_at="*", wait_ms=-200))
@@ -64,7 +89,8 @@ VCODES = {31: "one execution ran rules of two different installed versions (torn
           34: "an execution that finished before an update started ran its version",
           35: "an execution that started after a removal had returned still ran a removed rule",
           36: "the execution crashed, panicked or returned an unexpected error while an update landed",
-          37: "a request did not finish"}
+          37: "a request did not finish",
+          38: "the rules an execution ran are not the rules of ONE admissible installed version under its entry point (all rules of that version and none of another)"}
 
 
 def main(run):
@@ -90,15 +116,16 @@ def main(run):
         script_ops = [st for st in sc["steps"] if st["op"] in ("update", "incr", "remove")]
         k = 0
         removals = []
+        op_terms = []
         for oo in o["ops"]:
             if oo["op"].startswith("inside-"):
-                ver = sc.get("_inside_ver")
-                names = ["pc"] if sc["_first_kind"] == "remove" else None
+                st = sc["_inside_u"]
             else:
                 st = script_ops[k]
                 k += 1
-                ver = st.get("_ver")
-                names = st.get("names") if st["op"] == "remove" else None
+            ver = st.get("_ver")
+            names = st.get("names") if st["op"] == "remove" else None
+            op_terms.append((oo["begin_seq"], "(mkOO %s %s %s %s)" % (coq_mop_of(st), coq_nat(oo["begin_seq"]), coq_nat(oo["end_seq"]), coq_bool(not oo["err"] and not oo.get("panic")))))
             if oo.get("panic"):
                 extra.append((sc["id"], 36))
             if ver is not None:
@@ -108,11 +135,18 @@ def main(run):
             if ver is not None and removals and removals[-1][2] == 10 ** 9:
                 removals[-1][2] = oo["begin_seq"]      # a later update may legitimately bring the rule back
         execs = []
+        op_terms.sort()
+        steps_by_id = {st["id"]: st for st in sc["steps"] if st["op"] == "req"}
+        sets = []
         for r in o["reqs"]:
             if not r.get("done"):
                 continue
             if r.get("panic") or (r["err"] and "panic" in (r.get("errmsg") or "")):
                 extra.append((sc["id"], 36))
+            got = coq_list(["(%s, %s)" % (coq_str(n), coq_z(v // 1000000)) for n, v in sorted(r["result"].items()) if v >= 0])
+            sets.append("(mkES %s %s %s %s %s %s)" % (coq_nat(sc["id"]), coq_nat(r["id"]), coq_shape(steps_by_id[r["id"]], sc["model"]), got, coq_nat(r["begin_seq"]), coq_nat(r["end_seq"])))
+            if sc["_first_kind"] == "incr1":
+                continue        # the version after a one-rule incremental update mixes body tags by design: only the set check applies
             vers = [v // 1000000 for v in r["result"].values() if v >= 0]
             execs.append("mkEO %s %s %s %s %s" % (coq_nat(sc["id"]), coq_nat(r["id"]), coq_list([coq_nat(v) for v in vers]), coq_nat(r["begin_seq"]), coq_nat(r["end_seq"])))
             for (endseq, names, until) in removals:
@@ -121,10 +155,12 @@ def main(run):
         first = [r for r in o["reqs"] if r["id"] == sc["id"] * 1000 + 1]
         if first and first[0].get("done") and o["ops"] and o["ops"][0]["begin_seq"] > first[0]["begin_seq"] and o["ops"][0]["end_seq"] < first[0]["end_seq"]:
             landed += 1
-        per_sc[sc["id"]] = (ups, execs)
+        per_sc[sc["id"]] = (ups, execs, "(flat_map (check_exec_set (mgmt_init %s %s %s idshuffle) %s) %s)" % (
+            coq_nat(sc["max"]), coq_nat(sc["model"]), coq_prules(sc["rules"]), coq_list([t for _, t in op_terms]), coq_list(sets)))
     parts = []
-    for sid, (ups, execs) in per_sc.items():
+    for sid, (ups, execs, setcheck) in per_sc.items():
         parts.append("(flat_map (check_exec 1%%nat %s) %s)" % (coq_list(["(" + u + ")" for u in ups]), coq_list(["(" + e + ")" for e in execs])))
+        parts.append(setcheck)
     mm = []
     for i in range(0, len(parts), 40):
         defs = "Definition M := %s.\n" % (" ++ ".join(parts[i:i + 40]) or "@nil (nat * nat)")
@@ -153,10 +189,10 @@ def main(run):
     if not mm:
         cov["discharged"] += 1
     cov.update({"evaluations": len(scs), "distinct_nontrivial": landed,
-                "rule": "scenarios = 14 entry-point shapes (the multi-stage N-M and DAG models, their selected variants, the single-stage models, one SpecifiedEM wrapper) x update kind (full, incremental, removal) x where the update comes from (an injected function called from inside the first-stage rule; the script while that rule is held at a gate) on a (1,2) pool (thorough: also (2,3)); then max simultaneous executions must run the new version on every instance, a second update, and another round; "
-                        "every rule returns version*10^6 + request id; checked inside Coq per execution: one version only, an installed one, not older than any update that returned before it began, not newer than any update that began after it ended; removed rules never run in executions that began after the removal returned; "
+                "rule": "scenarios = 14 entry-point shapes (the multi-stage N-M and DAG models, their selected variants, the single-stage models, one SpecifiedEM wrapper) x update kind (full, incremental, one-rule incremental, removal of the last / first / middle / two rules) x where the update comes from (an injected function called from inside the first-stage rule; the script while that rule is held at a gate) on a (1,2) pool (thorough: also (2,3)); then max simultaneous executions must run the new version on every instance, a second update, and another round; "
+                        "every rule returns version*10^6 + request id; checked inside Coq per execution: the returned (rule, body tag) entries equal Engine/Spec.v's result map of the entry point on the container of ONE admissible version of Pool/Model.v's management history (Pool/Compose.v check_exec_set); one version tag only, an installed one, not older than any update that returned before it began, not newer than any update that began after it ended; removed rules never run in executions that began after the removal returned; "
                         "distinct non-trivial = scenarios in which the update really landed between the begin and the end of the execution under test (by global sequence numbers)",
-                "executions_checked": sum(len(e) for _, e in per_sc.values()), "traces_validated_against_impl": len(scs),
+                "executions_checked": sum(len(e) for _, e, _ in per_sc.values()), "traces_validated_against_impl": len(scs),
                 "samples": [{"scenario": strip(scs[0]), "requests": obs[0]["reqs"][:1], "ops": obs[0]["ops"][:1]}]})
     run.assumptions = ["the linearisation point of an execution (its snapshot of the rule container) is not observable; the run checks its consequences (single version, visibility inequalities) and T3 establishes the structure (one read under the update lock; updates publish fresh containers while holding that lock)",
                        "versions are identified by the tags the rules return; a removal is identified by the absence of the removed rules"]
